@@ -23,6 +23,33 @@ def cast_rule(rng, doc):
     return rr
 
 
+def dependent_casts(rng):
+    """a document of records and two (or three) cast rules of which a later one SELECTS by a field an earlier one
+    rewrites: casts are selected on the document as given, never on the copy being rewritten, whatever the rule order"""
+    L = lambda fn, pre, *a, **kw: ("leaf", {"datum": "value", "pre": pre, "fn": fn, "actuals": list(a), "akw": kw})   # noqa: E731
+    f, g = rng.sample(["a", "b", "c", "ab", "n"], 2)
+    strs = ["3", "7", "true", "x3", " 7 ", "FALSE", "0"]
+    recs = [{f: rng.choice(strs), g: rng.choice(strs)} for _ in range(rng.randint(2, 4))]
+    if rng.random() < 0.5:
+        doc, head, fan = {"rows": recs, "n": 1}, [("prim", "rows")], "list"
+    else:
+        doc = {"r%d" % j: r for j, r in enumerate(recs)}
+        head, fan = [], "map"
+    wanted = rng.choice(recs)[f]
+    part = lambda cond: {"rk": fan, "key": None, "index": None, "value": cond, "cond": None, "label": None}   # noqa: E731
+    sel = rng.choice([L("items_contain", "none", **{f: wanted}), L("keys_contain", "none", f)])
+    first = {"rparts": head + [part(None), ("prim", f)], "cond": rng.choice([L("greater_than", "none", 2), L("truthy", "none")]),
+             "cast": rng.choice(["int", "bool"])}
+    second = {"rparts": head + [part(sel), ("prim", g)], "cond": rng.choice([L("less_than", "none", 5), L("equal_to", "dtype", int)]),
+              "cast": rng.choice(["int", "bool"])}
+    rules = [first, second]
+    if rng.random() < 0.4:
+        rules.append({"rparts": head + [part(L("items_contain", "none", **{g: rng.choice(recs)[g]})), ("prim", f)],
+                      "cond": L("is_instance", "none", int), "cast": "int"})
+    rng.shuffle(rules)
+    return doc, rules
+
+
 def run(rep, tier, seed):
     a = tlc.model_check_sharded("MC_Schema", "MC_Schema_c15.cfg")
     rep.add_tlc(a, "A:MC_Schema_c15")
@@ -40,8 +67,11 @@ def run(rep, tier, seed):
         rrs = [cast_rule(rng, doc) for _ in range(k)]
         if k > 1 and rng.random() < 0.4:
             rrs[1] = dict(rrs[0], cast=rng.choice(["bool", "int"]))     # two rules on the same nodes
+        dep = rng.random() < 0.06
+        if dep:
+            doc, rrs = dependent_casts(rng)
         try:
-            if rng.random() < 0.65:
+            if dep or rng.random() < 0.65:
                 e = ruledrv.validate_event(len(events) + 1, rrs, doc, as_data=rng.random() < 0.3)
                 rec = {"op": "validate", "rules": [ruledrv.lit_rule(r) for r in rrs], "doc": to_lit(doc)}
             else:
